@@ -25,28 +25,28 @@ import (
 
 const (
 	btcChain = uint64(1)
-	maxOp    = 80      // MaxOp of TraceBtcCoins.cfg
+	maxTx    = 80      // NTx of TraceBtcCoins.cfg (outpoint = <<txid number, output index 0..3>>)
 	maxValue = 2000000 // satoshi per outpoint; 80 of them stay far below 2^31 (TLC integers)
 )
 
 type bev struct {
 	Op     string `json:"op"`
-	Ops    []int  `json:"ops"`
+	Ops    []oid  `json:"ops"`
 	Vals   []int  `json:"vals"`
-	O      int    `json:"o"`
+	O      oid    `json:"o"`
 	V      int    `json:"v"`
 	Via    string `json:"via"`
 	Target int64  `json:"target"`
 	Mc     int64  `json:"mc"`
 	Res    string `json:"res"`
-	Sel    []int  `json:"sel"`
+	Sel    []oid  `json:"sel"`
 	Sum    int64  `json:"sum"`
 	Fee    int64  `json:"fee"`
 	Change int64  `json:"change"`
 	Insum  int64  `json:"insum"`
 	Outsum int64  `json:"outsum"`
-	Utxo2  []int  `json:"utxo2"`
-	Stxo2  []int  `json:"stxo2"`
+	Utxo2  []oid  `json:"utxo2"`
+	Stxo2  []oid  `json:"stxo2"`
 
 	// diagnostics
 	FeeRate  uint64  `json:"feerate,omitempty"`
@@ -60,6 +60,10 @@ type bev struct {
 	Panic    string  `json:"panic,omitempty"`
 }
 
+// oid is an outpoint as the specification sees it: (number of the transaction id in order of first appearance, output
+// index).  {0,0} = not an outpoint the driver created.  Several outpoints of one scenario share a transaction id.
+type oid [2]int
+
 type scenario struct {
 	sb       *nativekit.Sandbox
 	rng      *vio.RNG
@@ -71,9 +75,11 @@ type scenario struct {
 	p2wsh    []byte
 	payAddr  string
 	payScr   []byte
-	ids      map[string]int
-	vals     map[int]int64
-	nextOp   int
+	ids      map[string]oid
+	txn      map[string]int // txid -> number
+	lastTx   []byte         // txid of the outpoint created last, and the indices used of it
+	lastIdx  map[uint32]bool
+	vals     map[oid]int64
 	feeRate  uint64
 	mc       uint64
 	events   []bev
@@ -84,7 +90,7 @@ type scenario struct {
 func opKey(op *btc.OutPoint) string { return hex.EncodeToString(op.Hash) + ":" + fmt.Sprint(op.Index) }
 
 func newScenario(rng *vio.RNG) *scenario {
-	sc := &scenario{sb: nativekit.New(), rng: rng, net: &chaincfg.RegressionNetParams, ids: map[string]int{}, vals: map[int]int64{}}
+	sc := &scenario{sb: nativekit.New(), rng: rng, net: &chaincfg.RegressionNetParams, ids: map[string]oid{}, txn: map[string]int{}, vals: map[oid]int64{}}
 	// m-of-n redeem script
 	sc.n = 1 + rng.Intn(5)
 	sc.m = 1 + rng.Intn(sc.n)
@@ -156,7 +162,6 @@ func (sc *scenario) value() int64 {
 }
 
 func (sc *scenario) newUtxo() *btc.Utxo {
-	sc.nextOp++
 	v := sc.value()
 	if v > maxValue {
 		v = maxValue
@@ -165,9 +170,28 @@ func (sc *scenario) newUtxo() *btc.Utxo {
 	if sc.rng.Intn(2) == 0 {
 		scr = sc.p2wsh
 	}
-	u := &btc.Utxo{Op: &btc.OutPoint{Hash: sc.rng.Bytes(32), Index: uint32(sc.rng.Intn(4))}, AtHeight: uint32(sc.rng.Intn(1000)), Value: uint64(v), ScriptPubkey: scr}
-	sc.ids[opKey(u.Op)] = sc.nextOp
-	sc.vals[sc.nextOp] = v
+	// about half of the outpoints are further outputs (index 0..3) of the transaction created last: a relayed
+	// withdrawal that pays the multisig and returns change to it, or one deposit transaction with several outputs
+	var hash []byte
+	var index uint32
+	if sc.lastTx != nil && len(sc.lastIdx) < 4 && sc.rng.Intn(2) == 0 {
+		hash = sc.lastTx
+		for index = uint32(sc.rng.Intn(4)); sc.lastIdx[index]; index = (index + 1) % 4 {
+		}
+		if sc.rng.Intn(4) != 0 {
+			v = v/2 + 1 + int64(sc.rng.Intn(int(v/2)+1))
+		}
+	} else {
+		hash = sc.rng.Bytes(32)
+		index = uint32(sc.rng.Intn(4))
+		sc.lastTx, sc.lastIdx = hash, map[uint32]bool{}
+		sc.txn[hex.EncodeToString(hash)] = len(sc.txn) + 1
+	}
+	sc.lastIdx[index] = true
+	u := &btc.Utxo{Op: &btc.OutPoint{Hash: hash, Index: index}, AtHeight: uint32(sc.rng.Intn(1000)), Value: uint64(v), ScriptPubkey: scr}
+	id := oid{sc.txn[hex.EncodeToString(hash)], int(index)}
+	sc.ids[opKey(u.Op)] = id
+	sc.vals[id] = v
 	return u
 }
 
@@ -181,17 +205,17 @@ func (sc *scenario) stored() (ut, st *btc.Utxos) {
 	return
 }
 
-func (sc *scenario) idsOf(us []*btc.Utxo) []int {
-	r := make([]int, len(us))
+func (sc *scenario) idsOf(us []*btc.Utxo) []oid {
+	r := make([]oid, len(us))
 	for i, u := range us {
 		r[i] = sc.ids[opKey(u.Op)]
 	}
 	return r
 }
 
-func sorted(a []int) []int {
-	b := append([]int{}, a...)
-	sort.Ints(b)
+func sorted(a []oid) []oid {
+	b := append([]oid{}, a...)
+	sort.Slice(b, func(i, j int) bool { return b[i][0] < b[j][0] || (b[i][0] == b[j][0] && b[i][1] < b[j][1]) })
 	return b
 }
 
@@ -210,7 +234,7 @@ func (sc *scenario) reset(n int) {
 		return nil, nil
 	}, nativekit.Tx(), nil)
 	vio.Must(err)
-	e := bev{Op: "reset", Ops: []int{}, Vals: []int{}, Sel: []int{}, Utxo2: []int{}, Stxo2: []int{}}
+	e := bev{Op: "reset", Ops: []oid{}, Vals: []int{}, Sel: []oid{}, Utxo2: []oid{}, Stxo2: []oid{}}
 	for _, u := range us.Utxos {
 		e.Ops = append(e.Ops, sc.ids[opKey(u.Op)])
 		e.Vals = append(e.Vals, int(u.Value))
@@ -230,7 +254,7 @@ func (sc *scenario) deposit() {
 		return nil, nil
 	}, nativekit.Tx(), nil)
 	vio.Must(err)
-	sc.events = append(sc.events, bev{Op: "dep", O: sc.ids[opKey(u.Op)], V: int(u.Value), Ops: []int{}, Vals: []int{}, Sel: []int{}, Utxo2: []int{}, Stxo2: []int{}})
+	sc.events = append(sc.events, bev{Op: "dep", O: sc.ids[opKey(u.Op)], V: int(u.Value), Ops: []oid{}, Vals: []int{}, Sel: []oid{}, Utxo2: []oid{}, Stxo2: []oid{}})
 }
 
 // target picks a payment amount in one of several relations to the unspent values and the minimum change.
@@ -309,7 +333,7 @@ func (sc *scenario) outs(amount int64) []*wire.TxOut {
 
 func (sc *scenario) withdrawChoose(amount int64) {
 	before, _ := sc.stored()
-	e := bev{Op: "w", Via: "choose", Target: amount, Mc: int64(sc.mc), Res: "fail", Ops: []int{}, Vals: []int{}, Sel: []int{}}
+	e := bev{Op: "w", Via: "choose", Target: amount, Mc: int64(sc.mc), Res: "fail", Ops: []oid{}, Vals: []int{}, Sel: []oid{}}
 	sc.describe(&e, before)
 	var sel []*btc.Utxo
 	var sum, fee int64
@@ -340,7 +364,7 @@ func (sc *scenario) withdrawChoose(amount int64) {
 
 func (sc *scenario) withdrawMakeTx(amount int64) {
 	before, _ := sc.stored()
-	e := bev{Op: "w", Via: "maketx", Target: amount, Mc: int64(sc.mc), Res: "fail", Ops: []int{}, Vals: []int{}, Sel: []int{}}
+	e := bev{Op: "w", Via: "maketx", Target: amount, Mc: int64(sc.mc), Res: "fail", Ops: []oid{}, Vals: []int{}, Sel: []oid{}}
 	sc.describe(&e, before)
 	var err error
 	var ns *native.NativeService
@@ -394,7 +418,7 @@ func (sc *scenario) withdrawMakeTx(amount int64) {
 // probe runs the CoinSelector alone on the stored unspent set (sorted the way chooseUtxos sorts it); nothing is stored.
 func (sc *scenario) probe(amount int64, strategy string) {
 	before, _ := sc.stored()
-	e := bev{Op: "w", Via: "select", Strategy: strategy, Target: amount, Mc: int64(sc.mc), Res: "fail", Ops: []int{}, Vals: []int{}, Sel: []int{}, Utxo2: []int{}, Stxo2: []int{}}
+	e := bev{Op: "w", Via: "select", Strategy: strategy, Target: amount, Mc: int64(sc.mc), Res: "fail", Ops: []oid{}, Vals: []int{}, Sel: []oid{}, Utxo2: []oid{}, Stxo2: []oid{}}
 	sc.describe(&e, before)
 	sort.Sort(sort.Reverse(before))
 	var sel []*btc.Utxo
@@ -446,7 +470,7 @@ func (sc *scenario) diagnose(e *bev, offered *btc.Utxos, amount int64) {
 	} else if bn, _, _ := btc.VerifSelect("bnb", so, uint64(amount), sc.mc, sc.feeRate, sc.outs(amount), sc.m, sc.n); bn != nil {
 		return // the branch-and-bound search answered: not SortedSearch
 	}
-	pos := map[int]int{}
+	pos := map[oid]int{}
 	for i, u := range so.Utxos {
 		pos[sc.ids[opKey(u.Op)]] = i
 	}
@@ -522,7 +546,7 @@ func runScenario(t int, seed uint64) recResult {
 		case x < 17:
 			sc.probe(amount, []string{"", "bnb", "sorted"}[rng.Intn(3)])
 		case x < 19:
-			if sc.nextOp < maxOp {
+			if len(sc.txn) < maxTx {
 				sc.deposit()
 			}
 		default:
